@@ -99,6 +99,10 @@ class C07:
             memo[id(v)] = False
             opn = v._op
             r = type(opn).__name__ == "Argument" or any(x is not None and from_input(x) for x in opn.inputs)
+            if not r:
+                # ... or through a control-flow body that closes over a model input (body-local arguments are not model inputs)
+                from harness import buildlib as _B
+                r = bool(_B.dependency_arguments([v]))
             memo[id(v)] = r
             return r
 
